@@ -315,6 +315,18 @@ c.ensures('back-jump-lands-on-the-test', "result is True ==> instr(emitted(_p)[-
 c.ensures('loop-context-popped', 'result is True ==> len(context_stack._loop_stack) == len(old(context_stack._loop_stack))')
 
 
+# ---- the sources of `repeat in ...` / `repeat all`: used through the family contract inside LoopParser.repeat, its own body here
+for lt in ('LIST', 'ALL'):
+    c = contract(LP, 'LoopParser._pre_loop_list', serves=['C06', 'C04', 'C05'], uses=('parser',), name='LoopParser._pre_loop_list[%s]' % lt)
+    def _setup(b, case, lt=lt):
+        pr = PL.parser(b)
+        lp = b.new(('bardolph.parser.loop_parser', 'LoopParser'), pr)
+        lp.attrs['_loop_type'] = b.module('bardolph.parser.loop_parser').ns['_LoopType'].members[lt]
+        return {'self': lp, 'code_gen': pr.attrs['_code_gen'], 'context_stack': pr.attrs['_context'], '_p': pr}
+    c.setup(_setup)
+    c.ensures('accept-or-message', 'result is True or (falsy(result) and errs() > old(errs()))')
+    c.ensures('no-message-when-accepted', 'result is True ==> errs() == old(errs())')
+
 # ---- Parser.parse: every compile starts afresh (C17) and ends in accept or a message (C06)
 for pre in ('UNKNOWN', 'EOF', 'NAME'):
     c = contract(P, 'Parser.parse', serves=['C06', 'C17', 'C05'], uses=('parser', 'dispatch'), name='Parser.parse[cursor was on %s]' % pre)
